@@ -8,17 +8,26 @@
    integrates t^k, k<=5, on [0,1] exactly up to 1e-30; a line's length is Euclidean; length is EXACTLY invariant under
    reversal, translation and rotation (any c,s with c^2+s^2=1, plus translation) and multiplied by |k| under scaling;
    chord - 1e-25*polygon <= length <= (1+1e-25)*polygon; a line's length is additive under splitting.
-   NOT covered by a theorem (stated here, unproved, watched by the search against adaptive Gauss-Kronrod):
-     length_accuracy: |length s - true arc length| <= 2% (0.01% when the speed never drops below half its mean),
-     and hence additivity of curve lengths under splitting within that tolerance -- a quadrature error bound for the
-     non-smooth integrand |B'| is real analysis this development does not attempt.  BezierPath.length = sum of the
-     segment lengths is a fold in the hand model checked by the correspondence. *)
+   ACCURACY (Proofs/C04poly.v, C04acc.v; definitions peval / pl1 / pint there, cubic_arclen = RInt of the speed in Proofs/C10flat.v):
+   the rule integrates t^k exactly up to 1e-39 for EVERY k <= 47 (one vm_compute over integers on the common denominator 10^40), hence any
+   polynomial of degree <= 47 up to 1e-39 * (sum of |coefficients|); if a continuous f is within e of such a polynomial on [0,1] then
+   |rule(f) - integral(f)| <= (2 + 1e-39) e + 1e-39 * l1 (gl_approx_error); sqrt(1+u) is within rho^12/60 of the degree-11 binomial
+   polynomial for |u| <= rho <= 3/5, proved ALGEBRAICALLY (P(u)^2 = 1 + u + u^12 Q(u) by field, no Taylor remainder); therefore, for a cubic or
+   quadratic whose speed stays in [m, M] with M <= 2m, |length - true arc length| <= 2e-4 * arc length (1e-6 for M <= 3m/2, 3e-5 for
+   M <= 9m/5): the property's 2% clause -- and its 0.01% clause -- for every gently parametrised curve, with no hypothesis on the control
+   polygon.  Example: the arc (0,0)(30,10)(60,10)(90,0) has speed in [90,95].
+   NOT covered by a theorem (watched by the search against adaptive Gauss-Kronrod): the 2% clause for curves whose speed varies by more than
+   a factor 2 (cusps, retracted handles: the integrand |B'| is then not uniformly approximable by degree-47 polynomials to that accuracy),
+   and hence additivity of curve lengths under splitting for those.  BezierPath.length = sum of the segment lengths is a fold in the hand
+   model checked by the correspondence (and regenerated: Gen/Sample.v). *)
 
+From Coquelicot Require Import Coquelicot.   (* RInt for the accuracy statements; imported first so that List.Forall below is not shadowed *)
 From Flocq Require Import Core.   (* bpow, radix2 for the float statements; imported first so that [float] below is PrimFloat.float *)
 From Coq Require Import PrimFloat.
 From Coq Require Import ZArith List Bool Reals Lra Permutation.
 From BZ Require Import Base.Ops Gen.Point Gen.Affine Gen.Line Gen.Quad Gen.Cubic Proofs.C04 Proofs.C15float Base.FloatErr Proofs.C01float.
 Import ListNotations.
+From BZ Require Proofs.C10flat Proofs.C04poly Proofs.C04acc.
 Open Scope R_scope.
 
 Theorem C04_cubic_length_is_gl :
@@ -105,6 +114,60 @@ Proof. exact line_length_float_close_M. Qed.
 Theorem C04_line_length_example :
   ffinite (Line_length FOps ex_line) /\ Rabs (FR (Line_length FOps ex_line) - Line_length ROps (seg2R ex_line)) <= (3 + / 32) * u * Line_length ROps (seg2R ex_line) + bpow radix2 (-535).
 Proof. exact line_length_example. Qed.
+Theorem C04_gl_moments_47 :
+  forall k : nat, (k <= 47)%nat -> Rabs (gl_length (fun t : R => t ^ k) - 1 / INR (S k)) <= / 10 ^ 39.
+Proof. exact @C04poly.gl_moments_47. Qed.
+Theorem C04_RInt_peval :
+  forall cs : list R, RInt.RInt (C04poly.peval cs) 0 1 = C04poly.pint cs.
+Proof. exact @C04poly.RInt_peval. Qed.
+Theorem C04_gl_peval_error :
+  forall cs : list R, (length cs <= 48)%nat -> Rabs (gl_length (C04poly.peval cs) - C04poly.pint cs) <= / 10 ^ 39 * C04poly.pl1 cs.
+Proof. exact @C04poly.gl_peval_error. Qed.
+Theorem C04_gl_approx_error :
+  forall (f : R -> Hierarchy.NormedModule.sort Hierarchy.R_AbsRing Hierarchy.R_NormedModule) (cs : list R) (e : R), RInt.ex_RInt f 0 1 -> (length cs <= 48)%nat -> (forall t : R, 0 <= t <= 1 -> Rabs (f t - C04poly.peval cs t) <= e) -> Rabs (gl_length f - RInt.RInt f 0 1) <= (2 + / 10 ^ 39) * e + / 10 ^ 39 * C04poly.pl1 cs.
+Proof. exact @C04poly.gl_approx_error. Qed.
+Theorem C04_sqA_square :
+  forall u : R, C04poly.peval C04acc.sqA u * C04poly.peval C04acc.sqA u = 1 + u + u ^ 12 * C04poly.peval C04acc.sqQ u.
+Proof. exact @C04acc.sqA_square. Qed.
+Theorem C04_sqrt_series_error :
+  forall u rho : R, Rabs u <= rho -> rho <= 3 / 5 -> Rabs (sqrt (1 + u) - C04poly.peval C04acc.sqA u) <= rho ^ 12 / 60.
+Proof. exact @C04acc.sqrt_series_error. Qed.
+Theorem C04_sqrt_quartic_gl :
+  forall g0 g1 g2 g3 g4 m M rho : R, 0 < m -> (forall t : R, 0 <= t <= 1 -> m * m <= C04poly.peval [g0; g1; g2; g3; g4] t <= M * M) -> M * M - m * m <= rho * (M * M + m * m) -> rho <= 3 / 5 -> Rabs (gl_length (fun t : R => sqrt (C04poly.peval [g0; g1; g2; g3; g4] t)) - RInt.RInt (fun t : R => sqrt (C04poly.peval [g0; g1; g2; g3; g4] t)) 0 1) <= sqrt ((m * m + M * M) / 2) * ((2 + / 10 ^ 39) * (rho ^ 12 / 60) + / 10 ^ 9).
+Proof. exact @C04acc.sqrt_quartic_gl. Qed.
+Theorem C04_cubic_length_accuracy_gen :
+  forall (s : seg4 R) (m M rho : R), 0 < m -> (forall t : R, 0 <= t <= 1 -> m <= cubic_speed s t <= M) -> M * M - m * m <= rho * (M * M + m * m) -> rho <= 3 / 5 -> Rabs (Cubic_length ROps s - C10flat.cubic_arclen s 0 1) <= sqrt ((m * m + M * M) / 2) * ((2 + / 10 ^ 39) * (rho ^ 12 / 60) + / 10 ^ 9).
+Proof. exact @C04acc.cubic_length_accuracy_gen. Qed.
+Theorem C04_quad_length_accuracy_gen :
+  forall (s : seg3 R) (m M rho : R), 0 < m -> (forall t : R, 0 <= t <= 1 -> m <= quad_speed s t <= M) -> M * M - m * m <= rho * (M * M + m * m) -> rho <= 3 / 5 -> Rabs (Quad_length ROps s - C10flat.quad_arclen s 0 1) <= sqrt ((m * m + M * M) / 2) * ((2 + / 10 ^ 39) * (rho ^ 12 / 60) + / 10 ^ 9).
+Proof. exact @C04acc.quad_length_accuracy_gen. Qed.
+Theorem C04_cubic_length_accuracy :
+  forall (s : seg4 R) (m M : R), 0 < m -> (forall t : R, 0 <= t <= 1 -> m <= cubic_speed s t <= M) -> M <= 3 / 2 * m -> Rabs (Cubic_length ROps s - C10flat.cubic_arclen s 0 1) <= / 10 ^ 6 * C10flat.cubic_arclen s 0 1.
+Proof. exact @C04acc.cubic_length_accuracy. Qed.
+Theorem C04_cubic_length_accuracy_95 :
+  forall (s : seg4 R) (m M : R), 0 < m -> (forall t : R, 0 <= t <= 1 -> m <= cubic_speed s t <= M) -> M <= 9 / 5 * m -> Rabs (Cubic_length ROps s - C10flat.cubic_arclen s 0 1) <= 3 / 10 ^ 5 * C10flat.cubic_arclen s 0 1.
+Proof. exact @C04acc.cubic_length_accuracy_95. Qed.
+Theorem C04_cubic_length_accuracy_2 :
+  forall (s : seg4 R) (m M : R), 0 < m -> (forall t : R, 0 <= t <= 1 -> m <= cubic_speed s t <= M) -> M <= 2 * m -> Rabs (Cubic_length ROps s - C10flat.cubic_arclen s 0 1) <= 2 / 10 ^ 4 * C10flat.cubic_arclen s 0 1.
+Proof. exact @C04acc.cubic_length_accuracy_2. Qed.
+Theorem C04_cubic_length_accuracy_2pc :
+  forall (s : seg4 R) (m M : R), 0 < m -> (forall t : R, 0 <= t <= 1 -> m <= cubic_speed s t <= M) -> M <= 2 * m -> Rabs (Cubic_length ROps s - C10flat.cubic_arclen s 0 1) <= 2 / 100 * C10flat.cubic_arclen s 0 1.
+Proof. exact @C04acc.cubic_length_accuracy_2pc. Qed.
+Theorem C04_quad_length_accuracy :
+  forall (s : seg3 R) (m M : R), 0 < m -> (forall t : R, 0 <= t <= 1 -> m <= quad_speed s t <= M) -> M <= 3 / 2 * m -> Rabs (Quad_length ROps s - C10flat.quad_arclen s 0 1) <= / 10 ^ 6 * C10flat.quad_arclen s 0 1.
+Proof. exact @C04acc.quad_length_accuracy. Qed.
+Theorem C04_quad_length_accuracy_2 :
+  forall (s : seg3 R) (m M : R), 0 < m -> (forall t : R, 0 <= t <= 1 -> m <= quad_speed s t <= M) -> M <= 2 * m -> Rabs (Quad_length ROps s - C10flat.quad_arclen s 0 1) <= 2 / 10 ^ 4 * C10flat.quad_arclen s 0 1.
+Proof. exact @C04acc.quad_length_accuracy_2. Qed.
+Theorem C04_gentle_arc_speed :
+  forall t : R, 0 <= t <= 1 -> 90 <= cubic_speed C04acc.gentle_arc t <= 95.
+Proof. exact @C04acc.gentle_arc_speed. Qed.
+Theorem C04_gentle_arc_accuracy :
+  Rabs (Cubic_length ROps C04acc.gentle_arc - C10flat.cubic_arclen C04acc.gentle_arc 0 1) <= / 10 ^ 6 * C10flat.cubic_arclen C04acc.gentle_arc 0 1.
+Proof. exact @C04acc.gentle_arc_accuracy. Qed.
+Theorem C04_gentle_quad_accuracy :
+  Rabs (Quad_length ROps C04acc.gentle_quad - C10flat.quad_arclen C04acc.gentle_quad 0 1) <= / 10 ^ 6 * C10flat.quad_arclen C04acc.gentle_quad 0 1.
+Proof. exact @C04acc.gentle_quad_accuracy. Qed.
 
 Print Assumptions C04_cubic_length_is_gl.
 Print Assumptions C04_quad_length_is_gl.
@@ -134,3 +197,21 @@ Print Assumptions C04_line_length_float_close.
 Print Assumptions C04_line_length_float_close_rel.
 Print Assumptions C04_line_length_float_close_M.
 Print Assumptions C04_line_length_example.
+Print Assumptions C04_gl_moments_47.
+Print Assumptions C04_RInt_peval.
+Print Assumptions C04_gl_peval_error.
+Print Assumptions C04_gl_approx_error.
+Print Assumptions C04_sqA_square.
+Print Assumptions C04_sqrt_series_error.
+Print Assumptions C04_sqrt_quartic_gl.
+Print Assumptions C04_cubic_length_accuracy_gen.
+Print Assumptions C04_quad_length_accuracy_gen.
+Print Assumptions C04_cubic_length_accuracy.
+Print Assumptions C04_cubic_length_accuracy_95.
+Print Assumptions C04_cubic_length_accuracy_2.
+Print Assumptions C04_cubic_length_accuracy_2pc.
+Print Assumptions C04_quad_length_accuracy.
+Print Assumptions C04_quad_length_accuracy_2.
+Print Assumptions C04_gentle_arc_speed.
+Print Assumptions C04_gentle_arc_accuracy.
+Print Assumptions C04_gentle_quad_accuracy.
